@@ -183,6 +183,30 @@ func (e *Engine) sliceSet(st *State, al SliceAlt, i *Term, v Value, g *Term) {
 	e.storeLoc(st, extendLoc(al.Base, Step{Field: -1, Idx: Add(al.Off, i)}), v, g)
 }
 
+// lenBound returns a concrete upper bound for the length of a slice
+// alternative: a syntactic bound of the length term, else the size of the
+// element-wise backing array (sound because slicing is bounds-checked).
+func (e *Engine) lenBound(st *State, al SliceAlt) (int, bool) {
+	if al.Base == nil {
+		return 0, true
+	}
+	m, ok := maxConst(al.Len)
+	root, have := st.heap[al.Base.Obj]
+	if !have {
+		return m, ok
+	}
+	if av, isArr := readPath(root, al.Base.Path).(*ArrayV); isArr {
+		n := len(av.E)
+		if off, isC := al.Off.ConstInt(); isC && off <= n {
+			n -= off
+		}
+		if !ok || n < m {
+			return n, true
+		}
+	}
+	return m, ok
+}
+
 // seqView is a uniform read view over a slice alternative or a string.
 type seqView struct {
 	len *Term
@@ -203,7 +227,7 @@ func (e *Engine) views(st *State, v Value, site string) []seqView {
 				out = append(out, seqView{len: BVu(0, 64), max: 0, g: al.G, get: func(i *Term) Value { return nil }})
 				continue
 			}
-			mx, ok := maxConst(al.Len)
+			mx, ok := e.lenBound(st, al)
 			if !ok {
 				mx = -1
 			}
@@ -254,6 +278,12 @@ func (e *Engine) copyBuiltin(st *State, dst *SliceV, src Value, site string) *Te
 				continue
 			}
 			nmax, ok := maxConst(n)
+			if db, ok2 := e.lenBound(st, d); ok2 && (!ok || db < nmax) {
+				nmax, ok = db, true
+			}
+			if s.max >= 0 && (!ok || s.max < nmax) {
+				nmax, ok = s.max, true
+			}
 			if !ok {
 				panic(unsupported("copy with unbounded symbolic length at " + site))
 			}
@@ -376,7 +406,7 @@ func (e *Engine) appendBuiltin(st *State, s *SliceV, t Value, elem types.Type, s
 			}
 			gre := And(g, Not(fits))
 			if !gre.IsFalse() {
-				lmax, ok := maxConst(sa.Len)
+				lmax, ok := e.lenBound(st, sa)
 				if !ok {
 					panic(unsupported("append to slice of unbounded symbolic length at " + site))
 				}
